@@ -118,3 +118,49 @@ def run(chk):
         except Exception as e:
           chk.violation(key + ':standalone', f'child {cname} applied on its own subtree raised {type(e).__name__}: {str(e)[:120]}', beh)
   chk.cov['shape_only_programs'] = n
+  # two module programs running in two threads do not see each other's construction context: a thread paused between two
+  # auto-named children while another thread initialises an unrelated module gets the same names / variables as alone
+  import threading
+  body = (('E', 'MB', '', (('P', 'a'),), False), ('E', 'MB', '', (('P', 'b'),), False), ('E', 'MA', '', (('P', 'a'),), False))
+  rngs1 = lc.rngs_for(['params'])
+  alone = struct(dsl.Root(body=body, quiet=True).init(rngs1, None))
+
+  class PausingLog(list):
+    def __init__(self, inside, resume):
+      super().__init__()
+      self.inside, self.resume, self.n = inside, resume, 0
+
+    def append(self, e):
+      super().append(e)
+      if e.get('k') == 'leave':
+        self.n += 1
+        if self.n == 1:
+          self.inside.set()
+          self.resume.wait(60)
+  inside, resume = threading.Event(), threading.Event()
+  result = {}
+
+  def worker():
+    try:
+      result['vars'] = dsl.Root(body=body).init(rngs1, PausingLog(inside, resume))
+    except BaseException as e:  # noqa
+      result['err'] = e
+    finally:
+      inside.set()
+  t = threading.Thread(target=worker)
+  t.start()
+  inside.wait(60)
+  try:
+    other = struct(dsl.MB(body=(('P', 'a'),), quiet=True).init(rngs1, None))      # a module of the class the paused thread names next
+  except Exception as e:
+    other = ('raised', type(e).__name__)
+  finally:
+    resume.set()
+    t.join(60)
+  chk.count('C02:threads')
+  got = ('raised', type(result['err']).__name__) if 'err' in result else struct(result['vars'])
+  if got != alone:
+    chk.violation('C02:threads', f'a module initialised in one thread while another thread initialises an unrelated module gets variables '
+                                 f'{sorted(got) if isinstance(got, dict) else got}, alone it gets {sorted(alone)} (auto names must not depend on other threads)', {})
+  if other != struct(dsl.MB(body=(('P', 'a'),), quiet=True).init(rngs1, None)):
+    chk.violation('C02:threads', f'the unrelated module initialised meanwhile got {other}', {})
